@@ -42,15 +42,18 @@ CHECKS = {
         "after; converted under both wrappers it must behave like the original. Generated programs are "
         "additionally converted after a consistent renaming of their identifiers onto the risky set. On "
         "every conversion the suffixes handed out must be pairwise distinct, every __ol_ name must carry "
-        "one, and single-purpose temporaries must be bound at one site only.",
+        "one, and single-purpose temporaries must be bound at one site only. A fourth stage plugs two "
+        "different or the SAME identifier into 24 programs with two distinct entities (nested, redefined, "
+        "sibling functions and classes, function and parameter, decorated definitions, loop targets).",
         "One open finding (builtins called by plain name) is excluded by a static feature->builtin table.",
         "DESIGN.md section 3, C09"),
     "C14": (
         "complete enumeration of import statement forms x placement x 8 configurations over a vendored, "
         "self-logging package tree; oracle: import log, identity class of bound objects, sys.modules delta",
-        "39 statement forms (plain, dotted to depth 4, aliased, multi-module, from-imports of attributes and "
-        "of not-yet-imported submodules, relative level 1 and 2, interleaved/repeated) in 5 placements "
-        "(module, function, class body, global-declared, captured by a nested function) run with "
+        "47 statement forms (plain, dotted to depth 4, aliased, multi-module, from-imports of attributes and "
+        "of not-yet-imported submodules, relative level 1 and 2, interleaved/repeated, future statements) in "
+        "15 placements (module, function, class body, global-declared, captured by a nested function or class, "
+        "function in function, method, class in function, if/else branch, loop bodies) run with "
         "sys.modules reset; which modules were imported in which order, what each name is bound to, the "
         "new sys.modules keys and the final globals must equal CPython's.",
         "Relative forms run with __name__/__package__ set inside the vendored package.",
@@ -63,11 +66,12 @@ CHECKS = {
         "program under 4 hosts x 8 configurations; every distinct output text is evaluated on 6 "
         "runtimes and must print what the source prints on that runtime. The generator includes the "
         "version-sensitive forms (walrus as index / set element, starred tuple index, positional-only "
-        "parameters, f-string conversions/specs, lambda defaults). Interpreters are discovered at run "
+        "parameters, f-string conversions/specs, lambda defaults); a depth family (nested def/class/if/mixed "
+        "blocks x depths) and long-chain programs cover size x runtime. Interpreters are discovered at run "
         "time; the check exits 2 (cannot decide) with fewer than two runtimes.",
-        "3.14 is not in the image. Only stdout is compared across runtimes. One open finding "
-        "(ast.unparse writes host-version syntax) is excluded per (host, unparser) cell by structural "
-        "predicates on the source.",
+        "3.14 is not in the image. Only stdout is compared across runtimes. Two open findings: ast.unparse "
+        "writes host-version syntax (excluded per (host, unparser) cell by structural predicates on the "
+        "source); deep def/class nesting overflows the 3.8 parser stack (runtime 3.8 left out above depth 16).",
         "DESIGN.md section 3, C15"),
     "C07": (
         "complete sweep of probe-instrumented statement templates x 3 placements x 8 configurations + "
@@ -128,8 +132,9 @@ CHECKS = {
         "exception-free, terminating originals; each is converted under all 8 option combinations "
         "and evaluated in a fresh namespace; stdout and every user global must agree and only "
         "__ol_*/itertools/importlib may be added. Failures are shrunk by Hypothesis and a "
-        "statement-level delta debugger. Sampled, not exhaustive; the mechanism-specific sweeps "
-        "(C05-C07, C11-C14) cover the individual lowering tables exhaustively within bounds.",
+        "statement-level delta debugger. The pool (incl. 14 dense hand-written 'zoo' programs) and the "
+        "repository's scripts run as well, and so do the quick case sets of the C05/C06/C07/C13 engines "
+        "(whole programs decided by this same oracle) under a derived seed. Sampled, not exhaustive.",
         "Trusts CPython as reference and the canonical-value comparison; functions compare as "
         "'callable' (observed through calls). Host 3.12 only in the quick tier.",
         "DESIGN.md section 3, C01"),
@@ -152,7 +157,9 @@ CHECKS = {
         "14 unsupported statement kinds and the illegal break/continue/return placements; expression "
         "nodes are wrapped in yield / yield from / await / async comprehensions; every tuple/list "
         "target receives a second star. convert_code_string must raise for all 8 (fixed base, "
-        "thorough) or 2 rotating configurations. Exhaustive per base program; bases are sampled.",
+        "thorough) or 2 rotating configurations. Exhaustive per base program; bases are sampled. "
+        "Effect-survival stage for the last sentence: 29 inert-looking expression statements with a run-time "
+        "effect x 14 placements x 8 configurations must keep their trace and final exception type.",
         "Any Exception is a rejection; ast.unparse is trusted to print the mutated module (re-parsed).",
         "DESIGN.md section 3, C08"),
     "C10": (
